@@ -253,6 +253,10 @@ pub fn gen(r: &mut Rng, n: usize) -> Vec<String> {
             }
         }
     }
+    // "the bytes the client emits": the socket branch of send_msg while the remote is slow to read (tiny socket buffers)
+    for (cnt, len, delay) in [(24usize, 16384usize, 300u64), (40, 8000, 150), (3, 100, 0)] {
+        out.push(format!("snd {} {} {}", cnt, len + r.below(9) as usize, delay));
+    }
     for k in 0..n {
         match k % 3 {
             0 => out.push(format!("enc {}", m_toks(&gen_msg(r)).join(" "))),
